@@ -3,6 +3,14 @@
 import json, subprocess
 
 CHECKS = {
+ "C09": dict(level="fault_enumeration", design="§3 C09",
+   technique="deviation-bounded exhaustive exploration of termination histories (reconcile orders, environment events, a failure at every API/provider call, restarts) on the real termination, lifecycle and eviction-queue code",
+   text="13 termination scenarios are driven for 30 steps through the real node-termination controller, NodeClaim lifecycle controller (finalize path) and eviction queue on an API layer that emulates graceful pod deletion, PDB admission and two-phase instance deletion. All histories with <=1 (quick) / <=2 (thorough) deviations from a fair default cycle are enumerated: any other enabled reconcile or event inserted (clock jumps, node NotReady, instance vanishing, PDB flip, user deleting the Node, controller restart) or a failed API/provider call. At the instant of every finalizer-removing write the oracle checks cordon, remaining drainable pods, blocking volume attachments vs TGP, and the provider's instance table; at the end, no instance outlives its NodeClaim.",
+   note="Trusted: fake API server + emulated graceful deletion; interleaving at reconcile granularity; a Node whose NodeClaim object is already gone is outside the statement."),
+ "C10": dict(level="model_checking", design="§3 C10",
+   technique="deviation-bounded exhaustive exploration of drain histories on the real terminator / eviction queue + exhaustive operation-sequence exploration of the real Queue (seam)",
+   text="10 drain scenarios (tiers, do-not-disrupt true/expired/active duration, static, tolerating, grace periods, already terminating, PDB blocked / two PDBs, TGP none/60s/600s) are driven for 30 steps through the real controllers; all histories with <=1 (quick) / <=2 (thorough) deviations from a fair default cycle are enumerated. Every eviction create and every pod Delete is judged at the instant it is requested (eviction API only; no protected pod evicted; non-critical non-daemon pods first; direct delete only with a deadline, not before deadline minus the pod's grace, never grace 0). All operation sequences of length <=4/5 on the real eviction Queue check that a pod queued under an early deadline is never handled under a later one.",
+   note="Trusted: emulated eviction sub-resource (PDB admission, UID precondition) and graceful deletion; interleaving at reconcile granularity (no preemption inside a reconcile)."),
  "C14": dict(level="fault_enumeration", design="§3 C14",
    technique="deviation-bounded exhaustive exploration of lifecycle histories (environment events, stale reads, a failure at every individual API write / provider call) on the real lifecycle controller",
    text="NodeClaims created by the real provisioner (plain, startup taint, requested extended resource, template taint) are driven through the real lifecycle controller for 6-7 rounds; each round is one environment event from a finite menu, then one Reconcile handed any NodeClaim version not older than the last one given. All histories with <=1 (quick) / <=2 (thorough) deviations from the happy path (non-default event, stale version, a failed API write or provider call incl. capacity errors) are enumerated. At the instant of every provider Create and every NodeClaim write the oracle checks: <=1 successful Create per NodeClaim without a restart, finalizer present at Create, each condition becomes True only with its observable preconditions, capacity errors delete the NodeClaim.",
